@@ -116,6 +116,19 @@ func runC04(c *Ctx) {
 							okForm = false
 						}
 					}
+					if !okForm || nAtom == "" {
+						// the exact complement, count ≤ ⌊2N/3⌋, written as the rejecting test; which
+						// side accepts is decided per function by thresholdDirection below
+						okForm = p.Kind == "ge" && p.L.K == 0 && len(p.L.T) == 2
+						nAtom = ""
+						for a, k := range p.L.T {
+							if strings.HasPrefix(a, "div(+2*") && strings.HasSuffix(a, ",3)") && k == 1 {
+								nAtom = strings.TrimSuffix(strings.TrimPrefix(a, "div(+2*"), ",3)")
+							} else if k != -1 {
+								okForm = false
+							}
+						}
+					}
 					c.check(okForm && nAtom != "", "C04.threshold-form", name, bo.Pos(), "count > ⌊2·"+nAtom+"/3⌋", "not the strict +2/3 form: "+p.String())
 					if okForm && f.Signature.Recv() != nil && namedOf(f.Signature.Recv().Type()) == "voteSet" {
 						c.check(nAtom == "len($r.msgs)", "C04.threshold-form", name+" base", bo.Pos(), "n = number of validator slots", "threshold is relative to "+nAtom+", not to the number of validator slots len(vs.msgs)")
@@ -140,6 +153,8 @@ func runC04(c *Ctx) {
 		c.undecided("C04.threshold-form", "threshold sites", token.NoPos, fmt.Sprintf("expected ≥4 ⌊·/3⌋ comparisons in consensus, found %d", nSites))
 	}
 	checkEnoughVote(c, "C04.threshold-form")
+	thresholdDirection(c, "C04.threshold-form", c.mustFn(pkg, "voteSet", "hasOverTwoThirds"), 0)
+	thresholdDirection(c, "C04.threshold-form", c.mustFn(pkg, "voteSet", "getOverTwoThirdsRoundDecisionDigest"), 2)
 
 	// what is compared in the voteSet sites
 	if f := c.mustFn(pkg, "voteSet", "hasOverTwoThirds"); f != nil {
@@ -432,5 +447,42 @@ func namedOfAddrBase(v ssa.Value) string {
 		default:
 			return ""
 		}
+	}
+}
+
+
+// thresholdDirection: the boolean result idx of fn is true only behind
+// count > ⌊2·len(msgs)/3⌋ and false only behind its complement (whichever way
+// the comparison is written and whichever branch comes first).
+func thresholdDirection(c *Ctx, rule string, fn *ssa.Function, idx int) {
+	if fn == nil {
+		return
+	}
+	more := []Want{wGE("count > ⌊2n/3⌋", -1, t(1, `.`), t(-1, `^div\(\+2\*len\(\$r\.msgs\),3\)$`)), wGE("3·count > 2n", -1, t(3, `.`), t(-2, `^len\(\$r\.msgs\)$`))}
+	notMore := []Want{wGE("count ≤ ⌊2n/3⌋", 0, t(-1, `.`), t(1, `^div\(\+2\*len\(\$r\.msgs\),3\)$`)), wGE("3·count ≤ 2n", 0, t(-3, `.`), t(2, `^len\(\$r\.msgs\)$`))}
+	n := 0
+	for _, want := range []bool{true, false} {
+		for _, rs := range boolSites(fn, idx, want) {
+			gs := rs.guards()
+			if !isConstBool(rs.Results[idx], want) {
+				v, pol := stripNot(rs.Results[idx], want)
+				gs = append(gs, Guard{v, pol, rs.Ret.Block()})
+			}
+			ws := more
+			if !want {
+				ws = notMore
+			}
+			okD := false
+			for _, w := range ws {
+				if _, ok := holds(gs, w); ok {
+					okD = true
+				}
+			}
+			n++
+			c.check(okD, rule, fmt.Sprintf("%s = %v only on the matching side of the +2/3 threshold", fnName(fn), want), rs.pos(), "direction agrees", fmt.Sprintf("%s returns %v under %s: the accepting side of the +2/3 comparison is the wrong one", fnName(fn), want, guardsString(gs)))
+		}
+	}
+	if n < 2 {
+		c.undecided(rule, fnName(fn)+" direction", fn.Pos(), fmt.Sprintf("%d classified exits", n))
 	}
 }
